@@ -312,6 +312,26 @@ impl Hist {
         }
     }
 
+    /// The caller writes a gradient of its own into the slot (`*h.gradient_mut() = Some(g)`: a restored accumulator, a
+    /// clipped or averaged gradient) and keeps a handle to the array it installed. Later passes add to the slot; the
+    /// installed array itself stays what it was.
+    pub fn install(&mut self, node: usize, r: &mut Rng) {
+        self.step += 1;
+        if self.st.p.base(node) != node {
+            return;
+        }
+        if let Some(h) = &self.handles[node] {
+            let dims = h.dimensions().to_vec();
+            let v: Vec<f64> = (0..numel(&dims)).map(|_| r.int(-3, 3)).collect();
+            let g = arr(&dims, &v);
+            *h.gradient_mut() = Some(g.clone());
+            self.register(&g, "installed-gradient");
+            self.bound += v.iter().fold(1.0f64, |m, x| m.max(x.abs()));
+            self.slot[node] = Some(Slot { scale: v.iter().map(|x| x.abs()).collect(), v, tainted: false, contributions: 1 });
+            self.log.push(format!("install gradient on n{}", node));
+        }
+    }
+
     pub fn keep_clone(&mut self, node: usize) {
         self.step += 1;
         if let Some(h) = &self.handles[node] {
